@@ -527,7 +527,7 @@ class CProgram:
                 if k not in rec_funcs and table.get('__functions__'):
                     continue           # a helper the confirmed tree does not have: expanded at its call sites
                 try:
-                    cptr.normalise(f, self.funcs, rec_funcs, table.get(k))
+                    cptr.normalise(f, self.funcs, rec_funcs, table.get(k), [g for g, (gt, _gi, _gl) in self.globals.items() if '*' in gt])
                 except cptr.Unsupported as e:
                     f.ptr_error = str(e)
                 except AnalysisError as e:
